@@ -81,23 +81,33 @@ func c11Extra(c *Check) {
 	// accrual: the multiplication by elapsed time in Budget
 	var accr []string
 	nAccr := 0
-	allInstrs(budget, func(in ssa.Instruction) {
-		bo, ok := in.(*ssa.BinOp)
-		if !ok || bo.Op != token.MUL || !isIntType(bo.Type()) {
-			return
-		}
-		var rate ssa.Value
-		switch {
-		case isTimeDerived(bo.Y, budget) && !isTimeDerived(bo.X, budget):
-			rate = bo.X
-		case isTimeDerived(bo.X, budget) && !isTimeDerived(bo.Y, budget):
-			rate = bo.Y
-		default:
-			return
-		}
-		nAccr++
-		accr = describe(rate)
-	})
+	accrFns := []*ssa.Function{budget}
+	for _, ci := range callsIn(budget, func(ci ssa.CallInstruction) bool {
+		g := staticCallee(ci)
+		return g != nil && g != budget && fnPkg(g) != nil && fnPkg(g).Pkg.Path() == pCommon && len(g.Params) > 1
+	}) {
+		accrFns = append(accrFns, staticCallee(ci))
+	}
+	for _, af := range accrFns {
+		af := af
+		allInstrs(af, func(in ssa.Instruction) {
+			bo, ok := in.(*ssa.BinOp)
+			if !ok || bo.Op != token.MUL || !isIntType(bo.Type()) {
+				return
+			}
+			var rate ssa.Value
+			switch {
+			case isTimeDerived(bo.Y, af) && !isTimeDerived(bo.X, af):
+				rate = bo.X
+			case isTimeDerived(bo.X, af) && !isTimeDerived(bo.Y, af):
+				rate = bo.Y
+			default:
+				return
+			}
+			nAccr++
+			accr = describe(rate)
+		})
+	}
 	// wake-up: the division of the missing bytes in TimeUntilSend
 	var wk []string
 	nWake := 0
@@ -128,6 +138,115 @@ func c11Extra(c *Check) {
 		a, w := strip(accr), strip(wk)
 		// the wake-up divisor must not depend on more state than the accrual rate and vice versa
 		c.Req(a != "" && a == w, "C11.R5:bandwidth-source", r5, p.Pos(wake.Pos()), fmt.Sprintf("Budget() accrues at [%s] but TimeUntilSend() divides by [%s]: when the two differ the budget at the announced wake-up time is below one datagram and the send loop spins", a, w))
+	}
+
+	// ---- R7 the stored budget is the capped budget
+	const r7 = "C11.R7 the budget remembered at a send derives from the capped Budget() value (burst-bounded), never from an uncapped accrual: credit accumulated over an idle gap is not released at once"
+	sent := p.Fn(pCommon, "(*Pacer).SentPacket")
+	if sent == nil {
+		c.Unres("congestion/common (*Pacer).SentPacket")
+	} else {
+		c.Saw(fnName(sent))
+		nSt := 0
+		allInstrs(sent, func(in ssa.Instruction) {
+			st, ok := in.(*ssa.Store)
+			if !ok {
+				return
+			}
+			fa, ok := st.Addr.(*ssa.FieldAddr)
+			if !ok || namedOf(fa.X.Type()) != pacer || !isIntType(st.Val.Type()) {
+				return
+			}
+			if strings.Contains(st.Val.Type().String(), "monotime.") || strings.Contains(st.Val.Type().String(), "time.") {
+				return // the last-send timestamp, not the budget
+			}
+			if _, isC := constInt(st.Val); isC {
+				return
+			}
+			nSt++
+			viaBudget, other := false, ""
+			for d := range deps(st.Val, depOpts{}) {
+				call, ok := d.(*ssa.Call)
+				if !ok {
+					continue
+				}
+				if g := staticCallee(call); g != nil && fnPkg(g) != nil && fnPkg(g).Pkg.Path() == pCommon {
+					if g == budget {
+						viaBudget = true
+					} else {
+						other = g.Name()
+					}
+				}
+			}
+			c.Req(viaBudget && other == "", fmt.Sprintf("C11.R7:stored-budget-capped#%d", nSt), r7, p.InstrPos(st), "the budget stored at a send is computed from "+other+" rather than from the capped Budget(): after an idle gap the whole uncapped credit is released in one burst")
+		})
+		c.Floor("C11.R7:budget-stores", nSt, 1)
+	}
+
+	// ---- R8 every event recomputes the compensation factor
+	const r8 = "C11.R8 every path through the congestion-event handler reaches the function that recomputes the compensation factor from the window (no early return keeps a stale factor)"
+	{
+		var handler, recompute *ssa.Function
+		for _, fn := range p.RepoFns {
+			if pk := fnPkg(fn); pk == nil || pk.Pkg.Path() != pBrutal || fn.Parent() != nil {
+				continue
+			}
+			if fn.Name() == "OnCongestionEventEx" {
+				handler = fn
+			}
+		}
+		if handler != nil {
+			// the recompute function: called from the handler with the handler's time-derived value,
+			// and (transitively) storing the float factor field
+			for _, ci := range callsIn(handler, func(ci ssa.CallInstruction) bool {
+				g := staticCallee(ci)
+				return g != nil && fnPkg(g) != nil && fnPkg(g).Pkg.Path() == pBrutal
+			}) {
+				g := staticCallee(ci)
+				storesFloat := false
+				seenF := map[*ssa.Function]bool{}
+				var walk func(f *ssa.Function, d int)
+				walk = func(f *ssa.Function, d int) {
+					if seenF[f] || d > 3 {
+						return
+					}
+					seenF[f] = true
+					allInstrs(f, func(in ssa.Instruction) {
+						if st, ok := in.(*ssa.Store); ok {
+							if _, ok := st.Addr.(*ssa.FieldAddr); ok {
+								if b, ok := st.Val.Type().Underlying().(*types.Basic); ok && b.Info()&types.IsFloat != 0 {
+									storesFloat = true
+								}
+							}
+						}
+						if cc, ok := in.(*ssa.Call); ok {
+							if h := staticCallee(cc); h != nil && fnPkg(h) != nil && fnPkg(h).Pkg.Path() == pBrutal {
+								walk(h, d+1)
+							}
+						}
+					})
+				}
+				walk(g, 0)
+				if storesFloat {
+					recompute = g
+				}
+			}
+		}
+		if handler == nil || recompute == nil {
+			c.Undecided("C11.R8:recompute-on-every-event", r8, "", "the congestion-event handler or the function recomputing the factor was not found in congestion/brutal")
+		} else {
+			c.Saw(fnName(handler))
+			isRecompute := func(in ssa.Instruction) bool {
+				ci, ok := in.(ssa.CallInstruction)
+				return ok && staticCallee(ci) == recompute
+			}
+			exits := exitsReachableAvoiding(handler, nil, isRecompute)
+			pos := p.Pos(handler.Pos())
+			if len(exits) > 0 {
+				pos = p.InstrPos(exits[0])
+			}
+			c.Req(len(exits) == 0, "C11.R8:recompute-on-every-event", r8, pos, "a path through "+fnName(handler)+" returns without calling "+fnName(recompute)+": the compensation factor is not recomputed after that batch (it can stay at 1 although the window now holds enough samples with losses)")
+		}
 	}
 
 	// ---- R6 age filter of the compensation counters
